@@ -47,7 +47,11 @@ ModelRes(S0, e) ==
 
 \* --- silent auto pauses
 MayFire(e) == {p \in Parts : cfg.auto /\ e.st.mf[p + 1]}
+\* (a pause proposed by a timer can also land after its partition was paused by somebody else: PausePartitions
+\* then only clears the stream's ResumeAll flag)
+LateLanding(S) == [S EXCEPT !.resumeAll = FALSE, !.lastRA = FALSE, !.tail = TRUE]
 Variants(S, F) == {AutoPausedSet(S, Q \cap Eligible(S)) : Q \in SUBSET F}
+                  \cup (IF F # {} /\ S.exists THEN {LateLanding(AutoPausedSet(S, Q \cap Eligible(S))) : Q \in SUBSET F} ELSE {})
 
 RecSubs(e) == [s \in SubIds |-> SubOf(e, s)]
 Match(S, e) == /\ S.exists = e.st.exists /\ S.paused = B(e.st.paused) /\ S.ro = B(e.st.ro)
